@@ -79,6 +79,12 @@ PROBLEM = ["[b-a]", "a{2,1}", "[z-a]x", "(a{3,2})", "[a-c-e]", "a{,2}", "a{}", "
            "a{1,2,3}", "a{1}{2}", "a+?+", "[^]", "[a-]", "[-a]", "[]a]", "a\\"]
 
 
+# a backslash before every printable ASCII character, alone and inside a bracket group: every escape the documentation
+# defines and every one it does not
+ALL_ESCAPES = ["\\" + chr(c) for c in range(0x20, 0x7F)] + ["[\\" + chr(c) + "]" for c in range(0x20, 0x7F)] + \
+              ["a\\" + c + "b" for c in "tnrvfabe0sdw"]
+
+
 def gen_tree(rng, depth):
     """A random pattern string built from the documented constructs."""
     if depth <= 0 or rng.random() < 0.3:
@@ -119,7 +125,7 @@ def small_exhaustive():
 
 
 def mutations(rng, pats, n):
-    alphabet = "ab.\\|?*+()[]{}$^-,01x:pPsdw/ \n"
+    alphabet = "ab.\\|?*+()[]{}$^-,01x:pPsdwtnrvf/ \n"
     out = []
     for _ in range(n):
         p = rng.choice(pats)
